@@ -197,7 +197,11 @@ func (p *Pool) Run(cases []*proto.Case, fn func(c *proto.Case, r *proto.Result))
 					}
 				}
 				ch.n++
+				t0 := time.Now()
 				res, alive := p.exchange(ch, cs)
+				if d := time.Since(t0); d > 500*time.Millisecond && os.Getenv("VERIF_DEBUG") != "" {
+					fmt.Fprintf(os.Stderr, "slow case %s %.2fs: %s\n", cs.ID, d.Seconds(), trunc(cs.Block, 120))
+				}
 				if res == nil {
 					// worker died while running the case
 					state := "?"
